@@ -817,9 +817,9 @@ func bcPropOfKey(key string) string {
 func runBrokerCore(t *testing.T, prop string) {
 	r := vh.Start(prop)
 	defer r.Finish()
-	if prop == "C04" && !vh.Serial() {
+	if (prop == "C04" || prop == "C02") && !vh.Serial() {
 		scDone := make(chan struct{})
-		go func() { runBrokerScenarios(t, r); close(scDone) }()
+		go func() { runBrokerScenarios(t, r, prop); close(scDone) }()
 		defer func() { <-scDone }()
 	}
 	nQuiet := r.N(120, 1200)
@@ -963,12 +963,45 @@ func bcSameSidRepoll(withAnswer bool) func(t *testing.T, inst *bcInst) string {
 	}
 }
 
+// two overlapping polls under one session id, no client: each is a request of its own and gets its idle answer
+func bcSameSidTwoIdle(t *testing.T, inst *bcInst) string {
+	p1 := &bcReq{kind: 'P', id: 1, wireNat: "restricted", nat: "restricted", sidText: "same-sid"}
+	inst.start(p1)
+	bcWait(func() bool { hu, hr, _, _ := inst.counts(); return hu+hr == 1 }, 5*time.Second)
+	time.Sleep(300 * time.Millisecond)
+	p2 := &bcReq{kind: 'P', id: 2, wireNat: "restricted", nat: "restricted", sidText: "same-sid"}
+	inst.start(p2)
+	bcWait(func() bool { return !inst.anyPending() }, bcTimeout()+bcTimeout())
+	return "poll(same-sid); 300 ms later a second poll(same-sid); no client: both idle into their timeouts"
+}
+
+// a matched proxy stays silent while another compatible poll is pending: the offer it holds is not handed out again
+func bcSilentProxyAndSpare(t *testing.T, inst *bcInst) string {
+	p1 := &bcReq{kind: 'P', id: 1, wireNat: "unrestricted", nat: "unrestricted"}
+	inst.start(p1)
+	bcWait(func() bool { hu, hr, _, _ := inst.counts(); return hu+hr == 1 }, 5*time.Second)
+	c1 := &bcReq{kind: 'C', id: 101, wireNat: "unknown", nat: "unknown"}
+	inst.start(c1)
+	bcWait(p1.isDone, 5*time.Second) // matched; the proxy never answers
+	time.Sleep(time.Second)
+	p2 := &bcReq{kind: 'P', id: 2, wireNat: "unrestricted", nat: "unrestricted"}
+	inst.start(p2) // pending from 1 s to 11 s after the match
+	bcWait(func() bool { return !inst.anyPending() }, bcTimeout()+bcTimeout())
+	desc := fmt.Sprintf("poll 1 matched by client 101 and silent; poll 2 pending meanwhile -> poll 1 %s, poll 2 %s, client %s", p1.outcome, p2.outcome, c1.outcome)
+	if strings.HasPrefix(p2.outcome, "matched:101") {
+		desc += " OFFER-HANDED-TWICE"
+	}
+	return desc
+}
+
 var bcScenarios = []bcScenario{
 	{"same-sid-repoll-while-matched/answered", bcSameSidRepoll(true)},
 	{"same-sid-repoll-while-matched/unanswered", bcSameSidRepoll(false)},
+	{"same-sid-two-idle-polls", bcSameSidTwoIdle},
+	{"silent-proxy-and-spare-poll", bcSilentProxyAndSpare},
 }
 
-func runBrokerScenarios(t *testing.T, r *vh.Run) {
+func runBrokerScenarios(t *testing.T, r *vh.Run, prop string) {
 	var wg sync.WaitGroup
 	type sres struct {
 		desc, real string
@@ -990,6 +1023,12 @@ func runBrokerScenarios(t *testing.T, r *vh.Run) {
 		o := out[i]
 		line := "scenario " + sc.name + ": " + o.desc
 		r.Case("scenario/"+sc.name, line, true)
+		if prop == "C02" {
+			if strings.Contains(o.desc, "OFFER-HANDED-TWICE") {
+				r.OracleFail("offer-handed-twice", line, o.real, "an offer is handed to at most one poll, however long that proxy stays silent")
+			}
+			continue
+		}
 		switch {
 		case o.inst.lockDead:
 			r.OracleFail("broker-lock-held-forever:"+sc.name, line, o.real, "the broker's matching lock was not released for 8 s")
